@@ -468,7 +468,8 @@ def cache_check(res, pid, cone, extra=None, n_file=(40, 400), n_cache=(30, 300))
                 for (c, r), o in zip(fx_ok, outs):
                     d = lockstep.compare_lines(lockstep.impl_lines_fs(c, r), o, None)
                     if d:
-                        fx_div.append({"case": {a: b for a, b in c.items() if a != "schedule"}, "divergence": d})
+                        fx_div.append({"case": {a: b for a, b in c.items() if a != "schedule"},
+                                       "schedule": c.get("schedule", [])[:len(r["trace"])], "divergence": d})
                 fx_n = len(fx_ok)
             except core.CaseEvalError as ex:
                 pr["ok"] = False
